@@ -51,9 +51,9 @@ prop('C12', level='proof', modules=['Polyseed.Props.C12'], suites=[],
      note=PROOF_NOTE + 'Modelled, not verified: polyseed_crypt, utf8_nfkd_lazy. Assumes the injected NFKD returns a NUL-terminated string shorter than POLYSEED_STR_SIZE and its length.',
      technique='Lean 4 proof (byte-wise XOR algebra, all masks) + API-history correspondence with recorded KDF calls',
      assumptions=['the injected KDF is a deterministic function of its inputs'])
-prop('C18', level='proof', modules=['Polyseed.Props.C18'], suites=[],
+prop('C18', level='proof', modules=['Polyseed.Props.C18', 'Polyseed.Props.C18Served'], suites=[],
      api=dict(cone={'inject': 'full', 'create': 'full', '*': 'ids'}, weights=dict(inject=6, roundtrip=2, crypt=1, faults=1)), extra='extra_syms_undef',
-     text='Theorems inject_replaces / inject_last_wins / inject_optional (libc time, malloc, free exactly when the entry is NULL) / inject_frame, create_events (alloc, clock, 19 random bytes, wipe - in this order, nothing else), create_secret (secret = the 19 bytes with the top two bits of the last dropped; injective on the 150 bits), create_junk_independent. S-api injects two distinguishable stub sets with each optional entry present/NULL (libc interposed with --wrap), overwrites and unmaps the caller struct after injection, and checks which function served every dependency call.',
+     text='Theorems step_served (EVERY dependency call of EVERY API call names the entry of the injected table responsible for it - allocation, free, wiping, randomness, clock, KDF, NFC, NFKD - for all inputs and oracles), inject_replaces / inject_last_wins / inject_optional (libc time, malloc, free exactly when the entry is NULL) / inject_frame, create_events (alloc, clock, 19 random bytes, wipe - in this order, nothing else), create_secret (secret = the 19 bytes with the top two bits of the last dropped; injective on the 150 bits), create_junk_independent. S-api injects two distinguishable stub sets with each optional entry present/NULL (libc interposed with --wrap), overwrites and unmaps the caller struct after injection, and checks which function served every dependency call.',
      note=PROOF_NOTE + 'Modelled, not verified: dependency.c, polyseed_create. "No other source of randomness or time" is additionally checked by the undefined-symbol inventory of the objects (S-syms).',
      technique='Lean 4 proof (event theorems over all random/clock outputs) + API-history correspondence with function identities',
      assumptions=[])
@@ -82,9 +82,9 @@ prop('C14', level='other', modules=['Polyseed.Props.C14'], suites=[],
 prop('C20', level='other', modules=['Polyseed.Props.C20'], suites=[], extra='extra_threads',
      text='Theorems thread_serial (in EVERY interleaving of calls of any number of threads, each thread observes exactly the outputs a serial execution of its own calls gives, provided the other threads make no inject/enable_features calls and neither name nor are handed one of its blocks; induction over the interleaving), step_local (outputs, dependency calls and consumed oracle answers depend on the state only through the dependency table, the feature mask and the seeds the call is given), step_agree (pointwise congruence), step_untouched, step_globals, globals_unchanged (every call other than inject/enable_features leaves the dependency table and the feature mask alone), other_thread_frame = C13.frame (a call never changes a seed other than its argument or the fresh block it obtains), on top of C15 (block identities never collide). Runtime: writable-symbol inventory of the objects built from the tree (complete: exactly the dependency table, the feature mask, the GF table and the registry array) and N threads x iterations under ThreadSanitizer with per-thread digests of every observable result compared with the serial run, yields injected through the dependency stubs.', note=PROOF_NOTE, technique='Lean 4 interleaving theorem on the model + ThreadSanitizer + writable-symbol inventory', assumptions=[],
      explanation='model: calls of different threads on disjoint seeds commute (each reads only the injected-dependency table, the feature mask and its own seeds); code: the writable-symbol inventory of the objects built from the tree is exactly {polyseed_deps, reserved_features, polyseed_mul2_table} (complete), and N threads run under ThreadSanitizer with per-thread results compared with the serial run (schedules sampled)')
-prop('C16', level='other', modules=['Polyseed.Props.C16'], suites=[],
+prop('C16', level='other', modules=['Polyseed.Props.C16', 'Polyseed.Props.C18Served'], suites=[],
      api=dict(cone={'*': 'ev:zero,free'}, weights=dict(roundtrip=3, crypt=3, faults=2, unsupported=2, storage=2, badtokens=1), sessions=3), extra='extra_stack',
-     text='Theorems free_wipes_first / freeEvents_wipe (a seed block - freed by the caller or by the library on its error paths - is wiped through the injected wipe over its whole size immediately before the injected free), decodeExplicit_wipes, decode_wipes (phrase copy, token pointers, polynomial on EVERY exit path; the detection loop index array whenever the loop ran), create_wipes, encode_wipes, crypt_wipes (polynomial, mask, normalised password), load_wipes. Runtime: memzero events of every op compared with the model (S-api), and the stack scan: 19 function/exit-path cases on a dedicated pre-patterned stack, scanned for secret bytes, indices (16/32/64-bit), phrase, password, mask, against a control run; gcc -O0/-O2 (thorough: + -O1/-O3 and clang -O0/-O2/-O3).', note=PROOF_NOTE, technique='Lean 4 theorem on the model wipe discipline + stack scan', assumptions=[],
+     text='Theorems step_served (all wiping goes through the injected function: every wipe event of every call names lib.deps.memzero), free_wipes_first / freeEvents_wipe (a seed block - freed by the caller or by the library on its error paths - is wiped through the injected wipe over its whole size immediately before the injected free), decodeExplicit_wipes, decode_wipes (phrase copy, token pointers, polynomial on EVERY exit path; the detection loop index array whenever the loop ran), create_wipes, encode_wipes, crypt_wipes (polynomial, mask, normalised password), load_wipes. Runtime: memzero events of every op compared with the model (S-api), and the stack scan: 19 function/exit-path cases on a dedicated pre-patterned stack, scanned for secret bytes, indices (16/32/64-bit), phrase, password, mask, against a control run; gcc -O0/-O2 (thorough: + -O1/-O3 and clang -O0/-O2/-O3).', note=PROOF_NOTE, technique='Lean 4 theorem on the model wipe discipline + stack scan', assumptions=[],
      explanation='model: every temporary that receives secret-derived data is the target of an injected wipe of its full size on every exit path, and a freed seed block is wiped first (theorems over all inputs); code: memzero events of every op compared with the model, plus a scan of the dead stack after every API function x exit path x compiler setting')
 prop('C17', level='proof', modules=['Polyseed.Props.C17'], suites=[],
      api=dict(cone={'encode': 'full'}, weights=dict(roundtrip=6, variants=1), sessions=3), extra='extra_c17',
